@@ -109,3 +109,25 @@ Proof.
   rewrite (nth_indep _ d (time_label start dt (Z.of_nat 0))) by (rewrite map_length, seq_length; lia).
   rewrite (map_nth (fun k => time_label start dt (Z.of_nat k))), seq_nth by lia. reflexivity.
 Qed.
+
+(* ---- recorders under restarts ------------------------------------------------------------------------ *)
+Lemma r_steps_after_init s n :
+  r_step s = 0%nat -> r_rec s = [0%nat] ->
+  let s' := fold_left (r_apply false) (repeat RStep n) s in
+  r_step s' = n /\ r_rec s' = seq 0 (S n).
+Proof.
+  intros H0 H1. induction n as [|n IH].
+  - cbn. split; [exact H0|exact H1].
+  - replace (repeat RStep (S n)) with (repeat RStep n ++ [RStep]) by (symmetry; apply (repeat_cons n RStep)).
+    rewrite fold_left_app. cbn [fold_left]. destruct IH as [IHs IHr].
+    cbn [r_apply r_step r_rec]. rewrite IHs, IHr. split; [reflexivity|].
+    rewrite (seq_S (S n) 0). reflexivity.
+Qed.
+
+Lemma restart_fresh_grid_lemma (pre : list rop) (n : nat) :
+  rec_labels false (pre ++ RInit :: repeat RStep n) = seq 0 (S n).
+Proof.
+  unfold rec_labels, r_run. rewrite fold_left_app. cbn [fold_left].
+  set (s := r_apply false _ RInit).
+  destruct (r_steps_after_init s n) as [_ H]; [reflexivity|reflexivity|exact H].
+Qed.
